@@ -866,6 +866,11 @@ class HistGen:
         """legitimate privileged operations by the owner: they must not change how pairs trade"""
         w, rng = self.w, self.rng
         p = self.pair()
+        if rng.random() < 0.25:
+            # the wasm admin (the deployer) migrates the factory / the router itself to the same code
+            which = rng.choice(["factory", "router"])
+            return {"kind": "owner_admin", "actor": "owner", "contract": w.factory if which == "factory" else w.router, "msg": {},
+                    "wasm_migrate": which, "funds": [], "sem": {"pair": p, "self_migration": which}}, []
         c, m = rng.choice([
             (w.factory, {"migrate_pair": {"contract": p.addr, "code_id": rng.choice([None, w.codes["pair2"], w.codes["pair"]])}}),
             (w.factory, {"update_config": {"owner": None, "token_code_id": rng.choice([None, w.codes["cw20"]]), "pair_code_id": rng.choice([None, w.codes["pair2"]])}}),
